@@ -122,10 +122,14 @@ class ExternalOptimizer(Optimizer):
                             raise exception
                     time.sleep(0.1)
 
-                with contextlib.suppress(ProcessLookupError):
-                    os.kill(self._process_pid, signal.SIGTERM)
-                with contextlib.suppress(subprocess.TimeoutExpired):
-                    process.wait(_PROCESS_TIMEOUT)
+                # The process has terminated by itself. After a normal run or
+                # an abort its exit code is zero, anything else is an error:
+                if process.returncode != 0:
+                    msg = (
+                        "External optimizer process terminated abnormally: "
+                        f"exit code {process.returncode}"
+                    )
+                    raise RuntimeError(msg)
 
     @property
     def allow_nan(self) -> bool:
